@@ -78,6 +78,9 @@ pub enum Damage {
     Truncate(usize),
     /// flip one bit of the JSON body
     BodyBit(usize),
+    /// legal re-encoding: the signature claims only a subset of the indexes it won (the index
+    /// list embedded in the signature bytes is rewritten, the signature stays valid)
+    SubsetIndexes(u64),
 }
 
 #[derive(Serialize, Deserialize, Clone, Debug, PartialEq)]
@@ -112,6 +115,9 @@ pub enum Event {
     /// fails; `crash` = every later statement fails too and the node is restarted right after
     /// the event during which it fired
     ArmDbFault { statement: u64, crash: bool },
+    /// marker: faults have stopped and the quiescence script has run; the oracle evaluates the
+    /// bounded-liveness verdict here
+    CheckLiveness,
 }
 
 impl Event {
@@ -154,6 +160,7 @@ impl Event {
                     "arm-db-error"
                 }
             }
+            Event::CheckLiveness => "check-liveness",
         }
     }
 }
@@ -230,6 +237,10 @@ pub struct World {
     pub registered_sent: BTreeMap<(usize, u64), u32>,
     pub db_fault: Arc<Mutex<DbFaultState>>,
     pub crashes_at: Vec<usize>,
+    /// write statements issued by the aggregator during each applied event (when recording)
+    pub statements_by_step: Vec<(usize, Vec<String>)>,
+    pub liveness_requested: bool,
+    pub db_faults_counted: usize,
 }
 
 /// State of the statement-level fault hook (C15).
@@ -344,6 +355,9 @@ impl World {
             registered_sent: BTreeMap::new(),
             db_fault,
             crashes_at: vec![],
+            statements_by_step: vec![],
+            liveness_requested: false,
+            db_faults_counted: 0,
         }
     }
 
@@ -452,13 +466,29 @@ impl World {
 
     pub fn apply(&mut self, ev: &Event) -> Applied {
         self.step += 1;
+        let before = self.db_fault.lock().unwrap().log.len();
         let r = self.apply_inner(ev);
+        {
+            let st = self.db_fault.lock().unwrap();
+            if st.record && st.log.len() > before {
+                self.statements_by_step.push((self.step, st.log[before..].to_vec()));
+            }
+        }
         if r.enabled {
             self.hit(&format!("ev_{}", ev.kind()));
         }
         // a crash armed by the statement hook fired during this event: the process is gone,
         // restart it on its directory
-        let crashed = self.db_fault.lock().unwrap().crashed;
+        let (crashed, fired) = {
+            let st = self.db_fault.lock().unwrap();
+            (st.crashed, st.fired.len())
+        };
+        if fired > self.db_faults_counted {
+            self.db_faults_counted = fired;
+            if !crashed {
+                self.hit("fault_db_error_on_statement");
+            }
+        }
         if crashed {
             self.hit("fault_crash_at_statement");
             self.crashes_at.push(self.step);
@@ -493,7 +523,10 @@ impl World {
                 if !self.agg.is_up() {
                     return skip("aggregator down");
                 }
-                self.agg.run_background(*polls);
+                if !self.agg.run_background(*polls) {
+                    self.hit("probe_background_task_did_not_finish");
+                    return ok("background task still running".into());
+                }
                 ok(String::new())
             }
             Event::Epoch { by } => {
@@ -718,6 +751,10 @@ impl World {
                 st.armed = Some((*statement, *crash));
                 ok(String::new())
             }
+            Event::CheckLiveness => {
+                self.liveness_requested = true;
+                ok(String::new())
+            }
         }
     }
 
@@ -873,6 +910,22 @@ fn damage_body(body: &str, d: &Damage) -> String {
                     }
                 }
             }
+            v.to_string()
+        }
+        Damage::SubsetIndexes(seed) => {
+            use mithril_common::crypto_helper::ProtocolSingleSignature;
+            let Ok(mut v) = serde_json::from_str::<serde_json::Value>(body) else { return body.to_string() };
+            let Some(hex) = v.get("signature").and_then(|s| s.as_str()).map(|s| s.to_string()) else { return body.to_string() };
+            let Ok(sig): Result<ProtocolSingleSignature, _> = hex.try_into() else { return body.to_string() };
+            let mut inner = sig.into_inner();
+            let all = inner.get_concatenation_signature_indices();
+            let mut r = sim_core::Rng::new(*seed);
+            let kept: Vec<u64> = all.iter().copied().filter(|_| r.chance(0.5)).collect();
+            let kept = if kept.is_empty() { all[..1.min(all.len())].to_vec() } else { kept };
+            inner.set_concatenation_signature_indices(&kept);
+            let Ok(new_hex) = ProtocolSingleSignature::new(inner).to_json_hex() else { return body.to_string() };
+            v["signature"] = serde_json::Value::String(new_hex);
+            v["indexes"] = serde_json::json!(kept);
             v.to_string()
         }
         Damage::DropIndex => {
